@@ -12,13 +12,19 @@
   `vm.NewInstructionSet()` (hook chain/vm/verif_table.go) and compared line by
   line with the live table on every `./check C16` run.
 
-  Determinism: `step`, `run` are functions of (table, machine, choices) only —
-  there is nothing else they could read.  The content of "deterministic" for
-  the implementation (same result from the same state) is checked by the
-  direct oracle of `hx c16`.
+  NOT proved here (oracle only, see props `partial`): determinism of the
+  implementation (same result from the same state) and absence of panics in
+  the Go code — `step`/`run` are functions, which says nothing about Go maps,
+  pools or precompile bodies; both are checked by the direct oracle of
+  `hx c16` (three runs per case, `Safe`).
+  Depth: the interpreter runs at `evm.depth` 1 … CallCreateDepth+1 = 1025 (a call
+  is refused when *made from* depth > 1024, exactly as in upstream geth); the
+  literal "≤ 1024" holds for the depth at which calls are accepted
+  (`call_depth_checked`), frames exist up to 1025 (`depth_bounded`).
 -/
 import LemoModel.Evm
 import LemoModel.EvmTable
+import LemoGen.Gas
 import LemoProofs.Lemmas.EvmShape
 import LemoProofs.Lemmas.EvmJournal
 import LemoProofs.Lemmas.EvmStatic
@@ -64,6 +70,17 @@ theorem table_call_ops :
 theorem table_create_writes : (EvmTable.table.info EvmTable.table.params.opCreate).writes = true := by decide
 
 theorem table_createBySuicide_pos : 0 < EvmTable.table.params.createBySuicide := by decide
+
+/-- the baked constants agree with the ones tools/go2lean regenerates from the Go source on every run -/
+theorem params_match_generated :
+    EvmTable.table.params.callCreateDepth = LemoGen.Gas.CallCreateDepth ∧
+    (EvmTable.table.params.maxCodeSize : Int) = LemoGen.Gas.MaxCodeSize := by decide
+
+/-- `gasCall` charges CallNewAccountGas (25000) *instead of* CallValueTransferGas (9000) when the
+    recipient is empty (upstream geth charges both); the model's lower bound `minGas + 9000 + extra`
+    is sound because 9000 ≤ 25000 -/
+theorem table_value_surcharge_le_new_account :
+    EvmTable.table.params.callValueTransferGas ≤ EvmTable.table.params.callNewAccountGas := by decide
 
 /-! ### termination -/
 
@@ -241,6 +258,46 @@ theorem gas_bounded (T : Table) (hT : T.WF) (o : Nat → Choice) (k : Kind) (gas
   simp only [sumGas] at h1
   omega
 
+/-- the per-frame gas bound holds at every point of every execution started from outside -/
+theorem gasInv_reachable (T : Table) (hT : T.WF) (o : Nat → Choice) (k : Kind) (gas : Nat) (value canT : Bool)
+    (callee : Callee) (n : Nat) :
+    GasInv 0 (iter T o n 0 (begin T k gas value canT callee)).frames := by
+  have key : ∀ n i m, GasInv 0 m.frames → GasInv 0 (iter T o n i m).frames := by
+    intro n
+    induction n with
+    | zero => intro i m h; exact h
+    | succ n ih =>
+      intro i m h
+      unfold iter
+      split
+      · exact h
+      · exact ih _ _ (gas_inv_step T hT m (o i) h)
+  exact key n 0 _ (begin_gasInv T k gas value canT callee)
+
+/-- the sixth entry point, `EVM.TransferAssetTx`: same gas bound -/
+theorem asset_gas_bounded (T : Table) (hT : T.WF) (o : Nat → Choice) (gas : Nat) (early az : Bool) (wt : List Nat)
+    (callee : Callee) (r : Res) (g : Nat)
+    (h : (run T hT o 0 (beginAsset T gas early az wt callee)).result = some (r, g)) : g ≤ gas := by
+  have h1 := run_total_le T hT o 0 (beginAsset T gas early az wt callee)
+  have h3 := run_terminates T hT o 0 (beginAsset T gas early az wt callee)
+  have h2 : (beginAsset T gas early az wt callee).total ≤ gas := by
+    unfold beginAsset Machine.total
+    split
+    · simp [giveBack, Machine.init, addGas, sumGas]
+    · split
+      · simp [giveBack, Machine.init, addGas, sumGas]
+      · split
+        · simp [giveBack, Machine.init, addGas, sumGas]
+        · rcases runCallee_shape T.params { Machine.init with journal := wt.map Entry.write } (newFrame Machine.init .asset gas) []
+              gas callee .asset rfl rfl rfl with ⟨x, res, hx, hf, hr⟩ | ⟨cf, hg, _, _, hf, hr⟩
+          · rw [hf, hr]; simp [addGas, sumGas]; exact hx
+          · rw [hf, hr]; simp [Machine.init, sumGas]; omega
+  unfold Machine.total at h1
+  rw [h, h3] at h1
+  simp only [sumGas] at h1
+  unfold Machine.total at h2
+  omega
+
 /-! ### 63/64 rule -/
 
 theorem callGas_le (P : Params) (hcs : 0 < P.createBySuicide) (avail base req t : Nat)
@@ -282,7 +339,7 @@ theorem child_gas_63_64 (T : Table) (hcs : 0 < T.params.createBySuicide) (ro : B
     split at h; · cases h
     simp only [Except.ok.injEq, Prod.mk.injEq] at h
     exact ⟨fun _ => h.2.symm, fun hne => absurd rfl hne⟩
-  | call | callCode | delegateCall | staticCall =>
+  | call | callCode | delegateCall | staticCall | asset =>
     simp only [] at h
     obtain ⟨temp, h1, h2, h3, h4⟩ := preCall_ok _ _ _ _ _ _ _ _ h
     refine ⟨fun hc => (by cases hc), fun _ => ⟨by omega, ?_⟩⟩
@@ -362,18 +419,67 @@ theorem chain_reachable (T : Table) (o : Nat → Choice) (k : Kind) (gas : Nat) 
       · exact ih _ _ (step_chain T m (o i) h)
   exact key n 0 _ (begin_chain T k gas value canT callee)
 
-/-- **failed_call_reverts**: when a frame ends with an error or a REVERT, the journal afterwards is
-    exactly the journal at the frame's `Snapshot()` (`f.entry`, ghost) plus the platform's failure
-    event (Call and Create only); REVERT hands the remaining gas back, every other error hands
-    back nothing. Holds for every frame at every nesting depth (`Chain` is an invariant:
-    `chain_reachable`). -/
+/-- **failed_call_reverts**: whenever a frame does not end with a successful outcome *after CREATE's
+    code-deposit step* (`depositRes … ≠ ok`: an error, a REVERT, or a constructor that ran fine but
+    whose code is too large / cannot be paid for), the journal afterwards is exactly the journal at
+    the frame's `Snapshot()` (`f.entry`, ghost) plus the platform's failure event (Call and Create
+    only); REVERT hands the remaining gas back, everything else hands back nothing. Holds for every
+    frame at every nesting depth (`Chain` is an invariant: `chain_reachable`). -/
 theorem failed_call_reverts (P : Params) (m : Machine) (f : Frame) (rest : List Frame) (res : Res) (g r : Nat)
-    (hc : Chain m.journal (f :: rest)) (hres : res ≠ .ok) :
-    (finishFrame P m f rest res g r).journal = f.entry ++ failEvents f.kind res ∧
-    (finishFrame P m f rest res g r).frames = addGas rest (if res = .failed then 0 else g) := by
+    (hc : Chain m.journal (f :: rest)) (hres : depositRes P f.kind res g r ≠ .ok) :
+    (finishFrame P m f rest res g r).journal = f.entry ++ failEvents f.kind (depositRes P f.kind res g r) ∧
+    (finishFrame P m f rest res g r).frames =
+      addGas rest (if depositRes P f.kind res g r = .failed then 0 else g) := by
   obtain ⟨h1, h2, _⟩ := hc
-  exact ⟨by rw [finishFrame_journal_notok P m f rest res g r hres, take_snap h1 h2],
-         finishFrame_frames_notok P m f rest res g r hres⟩
+  exact ⟨by rw [finishFrame_journal_fail P m f rest res g r hres, take_snap h1 h2],
+         finishFrame_frames_fail P m f rest res g r hres⟩
+
+/-- the run outcome itself not being `ok` is a special case -/
+theorem depositRes_ne_ok_of_res (P : Params) (k : Kind) (res : Res) (g r : Nat) (h : res ≠ .ok) :
+    depositRes P k res g r = res ∧ depositRes P k res g r ≠ .ok := by
+  rw [depositRes_of_ne_ok P k res g r h]; exact ⟨rfl, h⟩
+
+/-- **CREATE code-deposit failure** (`errMaxCodeSizeExceeded` / `ErrCodeStoreOutOfGas`, evm.go:518-543):
+    the constructor ran to a normal halt, but the returned code is longer than MaxCodeSize or the
+    frame cannot pay 200 gas per byte — everything the constructor did is reverted, all gas is
+    consumed, only the TopicRunFail event remains. -/
+theorem create_deposit_failure_reverts (P : Params) (m : Machine) (f : Frame) (rest : List Frame) (g r : Nat)
+    (hc : Chain m.journal (f :: rest)) (hk : f.kind = .create)
+    (hfail : r > P.maxCodeSize ∨ g < r * P.createDataGas) :
+    (finishFrame P m f rest .ok g r).journal = f.entry ++ [.event true] ∧
+    (finishFrame P m f rest .ok g r).frames = addGas rest 0 := by
+  have hd : depositRes P f.kind .ok g r = .failed := by
+    unfold depositRes
+    rw [if_pos ⟨hk, rfl⟩]
+    rcases hfail with h | h
+    · rw [if_pos h]
+    · by_cases h' : r > P.maxCodeSize
+      · rw [if_pos h']
+      · rw [if_neg h', if_pos h]
+  have := failed_call_reverts P m f rest .ok g r hc (by rw [hd]; decide)
+  rw [hd, hk] at this
+  simpa [failEvents] using this
+
+/-- the same at the level of the interpreter step: a halting instruction (STOP / RETURN) in a CREATE
+    frame whose code deposit fails -/
+theorem create_deposit_failure_step (T : Table) (m : Machine) (c : Choice) (f : Frame) (rest : List Frame) (g child : Nat)
+    (hm : m.frames = f :: rest) (hc : Chain m.journal m.frames) (hk : f.kind = .create)
+    (hp : pre T m.readOnly f.gas c = .ok (g, child)) (hkk : T.kindOf c.op = none) (hx : c.execErr = false)
+    (hr : (T.info c.op).reverts = false) (hh : (T.info c.op).halts = true)
+    (hfail : c.retLen > T.params.maxCodeSize ∨ g < c.retLen * T.params.createDataGas) :
+    (step T m c).journal = f.entry ++ [.event true] ∧ (step T m c).frames = addGas rest 0 := by
+  rw [hm] at hc
+  have hc1 : Chain (if (T.info c.op).writes then m.journal ++ c.wtags.map Entry.write else m.journal) (f :: rest) := by
+    split
+    · exact chain_mono (List.prefix_append _ _) hc
+    · exact hc
+  have := create_deposit_failure_reverts T.params
+    { m with journal := if (T.info c.op).writes then m.journal ++ c.wtags.map Entry.write else m.journal }
+    f rest g c.retLen hc1 hk hfail
+  unfold step
+  rw [hm]
+  simp only [hp, hkk, hx, hr, hh, if_true, Bool.false_eq_true, if_false]
+  exact this
 
 /-- every check of `Interpreter.Run` that fails (invalid opcode, stack, write protection, gas
     overflow, out of gas) ends the frame with "revert to snapshot, consume all gas" -/
@@ -381,7 +487,8 @@ theorem error_step_reverts (T : Table) (m : Machine) (c : Choice) (f : Frame) (r
     (hm : m.frames = f :: rest) (hc : Chain m.journal m.frames) (hp : pre T m.readOnly f.gas c = .error e) :
     (step T m c).journal = f.entry ++ failEvents f.kind .failed ∧ (step T m c).frames = addGas rest 0 := by
   rw [hm] at hc
-  have := failed_call_reverts T.params m f rest .failed 0 0 hc (by decide)
+  have := failed_call_reverts T.params m f rest .failed 0 0 hc (depositRes_ne_ok_of_res _ _ _ _ _ (by decide)).2
+  rw [(depositRes_ne_ok_of_res T.params f.kind .failed 0 0 (by decide)).1] at this
   unfold step
   rw [hm]
   simp only [hp]
@@ -393,7 +500,8 @@ theorem exec_error_step_reverts (T : Table) (m : Machine) (c : Choice) (f : Fram
     (hk : T.kindOf c.op = none) (hx : c.execErr = true) :
     (step T m c).journal = f.entry ++ failEvents f.kind .failed ∧ (step T m c).frames = addGas rest 0 := by
   rw [hm] at hc
-  have := failed_call_reverts T.params m f rest .failed 0 0 hc (by decide)
+  have := failed_call_reverts T.params m f rest .failed 0 0 hc (depositRes_ne_ok_of_res _ _ _ _ _ (by decide)).2
+  rw [(depositRes_ne_ok_of_res T.params f.kind .failed 0 0 (by decide)).1] at this
   unfold step
   rw [hm]
   simp only [hp, hk, hx, if_true]
@@ -405,13 +513,14 @@ theorem revert_step_keeps_gas (T : Table) (m : Machine) (c : Choice) (f : Frame)
     (hk : T.kindOf c.op = none) (hx : c.execErr = false) (hr : (T.info c.op).reverts = true) :
     (step T m c).journal = f.entry ++ failEvents f.kind .reverted ∧ (step T m c).frames = addGas rest g := by
   rw [hm] at hc
-  have hc1 : Chain (if (T.info c.op).writes then m.journal ++ List.replicate c.writes Entry.write else m.journal) (f :: rest) := by
+  have hc1 : Chain (if (T.info c.op).writes then m.journal ++ c.wtags.map Entry.write else m.journal) (f :: rest) := by
     split
     · exact chain_mono (List.prefix_append _ _) hc
     · exact hc
   have := failed_call_reverts T.params
-    { m with journal := if (T.info c.op).writes then m.journal ++ List.replicate c.writes Entry.write else m.journal }
-    f rest .reverted g 0 hc1 (by decide)
+    { m with journal := if (T.info c.op).writes then m.journal ++ c.wtags.map Entry.write else m.journal }
+    f rest .reverted g 0 hc1 (depositRes_ne_ok_of_res _ _ _ _ _ (by decide)).2
+  rw [(depositRes_ne_ok_of_res T.params f.kind .reverted g 0 (by decide)).1] at this
   unfold step
   rw [hm]
   simp only [hp, hk, hx, hr, if_true, Bool.false_eq_true, if_false]
@@ -431,12 +540,13 @@ theorem static_blocks_writing_instructions (T : Table) (gas : Nat) (c : Choice) 
     (T.info c.op).writes = false ∧ ¬ (c.op = T.params.opCall ∧ c.value = true) :=
   (pre_ok_valid T true gas c r h).2.2.2 rfl
 
-/-- the readOnly invariant (`ROInv`: the flag is on exactly while the StaticCall frame that set it is
-    live; no CREATE frame above it) holds at every point of every execution started from outside -/
-theorem roInv_reachable (T : Table) (hcw : (T.info T.params.opCreate).writes = true) (o : Nat → Choice)
-    (k : Kind) (gas : Nat) (value canT : Bool) (callee : Callee) (n : Nat) :
-    ROInv (iter T o n 0 (begin T k gas value canT callee)).readOnly (iter T o n 0 (begin T k gas value canT callee)).frames := by
-  have key : ∀ n i m, ROInv m.readOnly m.frames → ROInv (iter T o n i m).readOnly (iter T o n i m).frames := by
+/-- the three invariants (`Inv`: snapshot chain, readOnly discipline `ROInv`, and `SInv`: while
+    readOnly is on, the journal is the live StaticCall frame's snapshot journal followed by benign
+    entries only) hold at every point of every execution started from outside -/
+theorem inv_reachable (T : Table) (hg : T.params.guardPre = true) (hcw : (T.info T.params.opCreate).writes = true)
+    (o : Nat → Choice) (k : Kind) (gas : Nat) (value canT : Bool) (callee : Callee) (n : Nat) :
+    EvmStatic.Inv (iter T o n 0 (begin T k gas value canT callee)) := by
+  have key : ∀ n i m, EvmStatic.Inv m → EvmStatic.Inv (iter T o n i m) := by
     intro n
     induction n with
     | zero => intro i m h; exact h
@@ -445,36 +555,68 @@ theorem roInv_reachable (T : Table) (hcw : (T.info T.params.opCreate).writes = t
       unfold iter
       split
       · exact h
-      · exact ih _ _ (step_roInv T hcw m (o i) h)
-  exact key n 0 _ (begin_roInv T k gas value canT callee)
+      · exact ih _ _ (step_inv T hg hcw m (o i) h)
+  exact key n 0 _ (begin_inv T hg k gas value canT callee)
 
-/-- **static_no_write** (full statement, current code): in a machine satisfying the readOnly
-    invariant, a step made under readOnly — whatever the opcode, whatever the callee, precompiles
-    included — leaves a journal that is a truncation of the old one (a revert) followed only by
-    *benign* entries: the two balance logs of a transfer of **zero** (`evm.Call` runs
-    `evm.Transfer` unconditionally) and the platform's TopicRunFail event. No instruction write,
-    no precompile write, no value transfer, no code deposit, no creation event.
-    Premises: the guard of fix a881098 is in the code (`guardPre`) and CREATE is flagged `writes`
-    in the jump table — both decided on the regenerated table (`static_no_write_live`). -/
+/-- per step, with the truncation point pinned: under readOnly the journal after a step is the old
+    journal, or the old journal truncated to *exactly the innermost frame's own snapshot*, followed
+    by benign entries (the two balance logs of a transfer of zero, the TopicRunFail event) -/
+theorem static_step_journal (T : Table) (hg : T.params.guardPre = true) (hcw : (T.info T.params.opCreate).writes = true)
+    (m : Machine) (c : Choice) (f : Frame) (rest : List Frame) (hm : m.frames = f :: rest)
+    (hinv : EvmStatic.Inv m) (hro : m.readOnly = true) :
+    BenStep f.snap m.journal (step T m c).journal := by
+  have hr := hinv.ro
+  rw [hm, hro] at hr
+  exact step_benStep T hg hcw m c f rest hm hro (roInv_top hr)
+
+/-- **static_no_write** (full statement, current code). Let `m` be any state with readOnly on and
+    let `s` be the live StaticCall frame that switched it on (`SInv … m.frames` speaks about that
+    frame). After *any* step — whatever the opcode, whatever the callee, precompiles included, and in
+    particular the step with which `s` itself returns, normally or not — the journal is
+    `s.entry ++ ben`: **the journal at the entry of the static call, untouched, followed only by
+    benign entries** (no instruction write, no precompile write, no value transfer, no code deposit,
+    no creation event; nothing recorded before the static call is lost).
+    Premises: the guard of fix a881098 (`guardPre`) and CREATE flagged `writes`, both decided on the
+    regenerated table (`static_no_write_live`). The benign entries that may remain are real:
+    `static_zero_transfer_journaled`, `static_fail_event_survives`. -/
 theorem static_no_write (T : Table) (hg : T.params.guardPre = true) (hcw : (T.info T.params.opCreate).writes = true)
-    (m : Machine) (c : Choice) (hinv : ROInv m.readOnly m.frames) (hro : m.readOnly = true) :
-    BenExt m.journal (step T m c).journal := by
+    (m : Machine) (c : Choice) (hinv : EvmStatic.Inv m) (hro : m.readOnly = true) :
+    SInv (step T m c).journal m.frames := by
   cases hm : m.frames with
-  | nil =>
-    have : step T m c = m := by unfold step; rw [hm]
-    rw [this]; exact benExt_refl _
+  | nil => trivial
   | cons f rest =>
-    rw [hm, hro] at hinv
-    exact step_benExt T hg hcw m c f rest hm hro (roInv_top hinv)
+    have hs := hinv.stat hro
+    have hc := hinv.chain
+    rw [hm] at hs hc
+    exact sinv_benStep f.snap hs (chain_entry_len hc) (static_step_journal T hg hcw m c f rest hm hinv hro)
+
+/-- the return of the static call, spelled out: if the innermost frame is the StaticCall frame `s`
+    that switched readOnly on, then after the step (which may or may not end `s`) the journal is
+    `s.entry ++ benign` -/
+theorem static_return_journal (T : Table) (hg : T.params.guardPre = true) (hcw : (T.info T.params.opCreate).writes = true)
+    (m : Machine) (c : Choice) (s : Frame) (rest : List Frame) (hm : m.frames = s :: rest) (hset : s.setRO = true)
+    (hinv : EvmStatic.Inv m) :
+    ∃ ben, (step T m c).journal = s.entry ++ ben ∧ AllB ben := by
+  have hro : m.readOnly = true := by
+    have := hinv.ro
+    rw [hm] at this
+    unfold ROInv at this
+    rw [if_pos hset] at this
+    exact this.1
+  have := static_no_write T hg hcw m c hinv hro
+  rw [hm] at this
+  unfold SInv at this
+  rw [if_pos hset] at this
+  exact this
 
 /-- the same on the live table, at every reachable point of every execution: no guard left -/
 theorem static_no_write_live (o : Nat → Choice) (k : Kind) (gas : Nat) (value canT : Bool) (callee : Callee)
     (n : Nat) (c : Choice)
     (hro : (iter EvmTable.table o n 0 (begin EvmTable.table k gas value canT callee)).readOnly = true) :
-    BenExt (iter EvmTable.table o n 0 (begin EvmTable.table k gas value canT callee)).journal
-      (step EvmTable.table (iter EvmTable.table o n 0 (begin EvmTable.table k gas value canT callee)) c).journal :=
+    SInv (step EvmTable.table (iter EvmTable.table o n 0 (begin EvmTable.table k gas value canT callee)) c).journal
+      (iter EvmTable.table o n 0 (begin EvmTable.table k gas value canT callee)).frames :=
   static_no_write EvmTable.table table_guardPre table_create_writes _ c
-    (roInv_reachable EvmTable.table table_create_writes o k gas value canT callee n) hro
+    (inv_reachable EvmTable.table table_guardPre table_create_writes o k gas value canT callee n) hro
 
 /-- a plain instruction executed under readOnly leaves the journal untouched unless it ends the frame -/
 theorem static_plain_step_journal (T : Table) (m : Machine) (c : Choice) (f : Frame) (rest : List Frame) (g child : Nat)
@@ -490,13 +632,32 @@ theorem static_plain_step_journal (T : Table) (m : Machine) (c : Choice) (f : Fr
   simp only [hp, hk, hx, hr, hh, hw, Bool.false_eq_true, if_false]
 
 /-- readOnly is switched on by a StaticCall frame and stays on while that frame is live: entering
-    any callee never clears it -/
-theorem enter_keeps_readOnly (P : Params) (m : Machine) (k : Kind) (gas : Nat) (value canT : Bool)
+    any callee (code, precompile, empty, failing early) never clears it -/
+theorem enter_keeps_readOnly (P : Params) (m : Machine) (k : Kind) (gas : Nat) (value canT : Bool) (callee : Callee)
     (hro : m.readOnly = true) :
-    (enter P m k gas value canT .code).readOnly = true := by
-  unfold enter giveBack enterCreate enterCall runCallee giveBack
-  simp only [hro]
-  repeat (first | split | rfl | simp)
+    (enter P m k gas value canT callee).readOnly = true := by
+  have hcal : ∀ (m' : Machine) (k' : Kind) (callee : Callee), m'.readOnly = true →
+      (runCallee P m' (newFrame m k' gas) m.frames gas callee).readOnly = true := by
+    intro m' k' callee h
+    rcases runCallee_cases P m' (newFrame m k' gas) m.frames gas callee with ⟨h1, _, _⟩ | h1
+    · rw [h1]; exact h
+    · rw [h1]; simp [newFrame, hro, h]
+  unfold enter
+  split
+  · exact hro
+  · split
+    · exact hro
+    · split
+      · unfold enterCreate
+        split
+        · exact hro
+        · exact hcal _ _ _ hro
+      · unfold enterCall
+        split
+        · exact hro
+        · split
+          · exact hro
+          · exact hcal _ _ _ (by simp [hro])
 
 /-- the model of the code before fix a881098: `RunPrecompiledContract` without the readOnly guard -/
 def legacyTable : Table :=
@@ -508,17 +669,17 @@ set_option maxRecDepth 100000 in
     (address 0x09, `setRewardValue.Run` calls `SetStorageState`): a STATICCALL to it, made inside
     a static context, appended a write to the journal. -/
 theorem static_write_refuted :
-    ∃ (m : Machine) (c : Choice), m.readOnly = true ∧ Entry.write ∉ m.journal ∧
-      Entry.write ∈ (step legacyTable m c).journal :=
+    ∃ (m : Machine) (c : Choice), m.readOnly = true ∧ Entry.write 2 ∉ m.journal ∧
+      Entry.write 2 ∈ (step legacyTable m c).journal :=
   ⟨begin legacyTable .staticCall 100000 false true .code,
-   { op := 250, stackLen := 6, reqGas := 50000, callee := .pre 9 0 true 1 }, by decide, by decide, by decide⟩
+   { op := 250, stackLen := 6, reqGas := 50000, callee := .pre 9 0 true [2] }, by decide, by decide, by decide⟩
 
 set_option maxRecDepth 100000 in
 /-- the same step on the current code: the precompile is refused (write protection), nothing is
     journaled, the gas handed to it is consumed -/
 theorem static_reward_precompile_refused :
     let m := begin EvmTable.table .staticCall 100000 false true .code
-    let m' := step EvmTable.table m { op := 250, stackLen := 6, reqGas := 50000, callee := .pre 9 0 true 1 }
+    let m' := step EvmTable.table m { op := 250, stackLen := 6, reqGas := 50000, callee := .pre 9 0 true [2] }
     m.readOnly = true ∧ m'.journal = [] ∧ (m'.frames.map (·.gas)) = [100000 - 700 - 50000] := by
   decide
 
@@ -531,6 +692,21 @@ theorem static_zero_transfer_journaled :
   ⟨begin EvmTable.table .staticCall 100000 false true .code,
    { op := 241, stackLen := 7, reqGas := 50000, callee := .code }, by decide, by decide, by decide⟩
 
+set_option maxRecDepth 100000 in
+/-- **refutation of the literal "a read-only call changes nothing"** (current code, by design of the
+    platform's failure event): inside a static call a zero-value CALL to a callee that fails (here the
+    refused reward precompile) leaves the TopicRunFail event; the static call then returns
+    *successfully* and the event is still in the journal. On the real code that surviving AddEventLog
+    bumps the callee's version record (oracle `c16/static-changed-version-root/fail-event`). -/
+theorem static_fail_event_survives :
+    let T := EvmTable.table
+    let m0 := begin T .staticCall 100000 false true .code
+    let m1 := step T m0 { op := 241, stackLen := 7, reqGas := 50000, callee := .pre 9 0 true [2] }  -- CALL, value 0
+    let m2 := step T m1 { op := 0, stackLen := 1 }                                                   -- STOP
+    m0.journal = [] ∧ m1.readOnly = true ∧ m2.result = some (.ok, 49300) ∧ m2.frames = [] ∧
+    m2.journal = [.event true] := by
+  decide
+
 /-! ### non-vacuity -/
 
 set_option maxRecDepth 100000 in
@@ -539,13 +715,13 @@ set_option maxRecDepth 100000 in
 example :
     let T := EvmTable.table
     let m0 := begin T .call 100000 false true .code                       -- journal: 2 transfer logs
-    let m1 := step T m0 { op := 85, stackLen := 2, writes := 1 }          -- SSTORE (5000 gas)
+    let m1 := step T m0 { op := 85, stackLen := 2, wtags := [2] }         -- SSTORE (5000 gas)
     let m2 := step T m1 { op := 241, stackLen := 7, reqGas := 30000, callee := .code }  -- CALL, 30000 gas
-    let m3 := step T m2 { op := 85, stackLen := 2, writes := 1 }          -- inner SSTORE
+    let m3 := step T m2 { op := 85, stackLen := 2, wtags := [2] }         -- inner SSTORE
     let m4 := step T m3 { op := 254, stackLen := 0 }                      -- INVALID
     let m5 := step T m4 { op := 0, stackLen := 1 }                        -- outer STOP
     m2.frames.length = 2 ∧ (m2.frames.map (·.gas)) = [30000, 64300] ∧
-    m4.journal = [.transfer false, .transfer false, .write, .event true] ∧
+    m4.journal = [.transfer false, .transfer false, .write 2, .event true] ∧
     m5.result = some (.ok, 64300) ∧ m5.frames = [] := by
   decide
 
@@ -556,6 +732,24 @@ example :
     let T := EvmTable.table
     (pre T false 100000 { op := 241, stackLen := 7, reqGas := 1000000, value := true }).toOption = some (1410, 91190) ∧
     (step T (begin T .call 1000 false true .code) { op := 253, stackLen := 2 }).result = some (.reverted, 1000) := by
+  decide
+
+set_option maxRecDepth 100000 in
+/-- CREATE whose constructor succeeds but returns 24577 bytes (> MaxCodeSize), and one whose deposit
+    (200 gas/byte) cannot be paid: the constructor's write is gone, all gas is consumed, only the
+    failure event remains — the hypotheses of `create_deposit_failure_step` are satisfiable -/
+example :
+    let T := EvmTable.table
+    let m0 := begin T .create 10000000 false true .code
+    let m1 := step T m0 { op := 85, stackLen := 2, wtags := [2] }              -- constructor SSTORE
+    let big := step T m1 { op := 243, stackLen := 2, retLen := 24577 }          -- RETURN 24577 bytes
+    let poor := step T m1 { op := 243, stackLen := 2, retLen := 24576, extra := 9990000 }  -- RETURN, little gas left
+    let fine := step T m1 { op := 243, stackLen := 2, retLen := 24576 }
+    m1.journal = [.transfer false, .transfer false, .write 2] ∧
+    big.journal = [.event true] ∧ big.result = some (.failed, 0) ∧
+    poor.journal = [.event true] ∧ poor.result = some (.failed, 0) ∧
+    fine.journal = [.transfer false, .transfer false, .write 2, .code, .event false] ∧
+    fine.result = some (.ok, 10000000 - 5000 - 24576 * 200) := by
   decide
 
 end LemoProofs.C16
